@@ -38,10 +38,27 @@ def install(E):
         "nauyaca.security.certificates:get_certificate_fingerprint",
         ensures=[("sha256 of DER", lambda ctx, old, a, o: o[1].z == fp_of(ctx.force(a[0]).ident) if o[0] == "return" else None)], result=T.str())
 
+    E.inline.add(f"{TOFU}.__init__")
+    E.inline.add(f"{TOFU}._initialize_db")
+
     def mk_self(ctx):
-        db = ctx.alloc(TOFU, {"db_path": VOpaque("path", z3.Int("db_path_id"))})
+        """a store object as the REAL TOFUDatabase.__init__ leaves it (db_path given), with no transaction open"""
+        from pyvc.values import VClass, PyRaise, Infeasible
         E.sqlite_db_of(ctx)
+        try:
+            db = E.instantiate(ctx, None, VClass(TOFU), [VOpaque("path", z3.Int("db_path_id"))], {})
+        except PyRaise:
+            raise Infeasible()
+        ctx.ghost["connections_opened"] = [c for c in ctx.ghost.get("connections_opened", [])]
         return db
+
+    def no_open_txn(ctx):
+        """class invariant between operations: no connection of this store is left inside a transaction
+        (a leftover would be committed by whatever operation uses the connection next)"""
+        parts = []
+        for c in ctx.ghost.get("connections_opened", []):
+            parts.append(z3.Or(ctx.getf(c, "closed").z, z3.Not(ctx.getf(c, "in_txn").z)))
+        return z3.And(*parts) if parts else z3.BoolVal(True)
 
     def committed(ctx, heap=None):
         return E.sqlite_committed(ctx, heap)
@@ -54,7 +71,7 @@ def install(E):
         """post: returns => committed' == f_op(old, args, result) ; raises => unchanged ; <= 1 state-changing commit"""
         def post(ctx, old, args, outcome):
             c0, c1 = committed(ctx, old.snap), committed(ctx)
-            once = commits(ctx) - commits(ctx, old.snap) <= 1
+            once = z3.And(commits(ctx) - commits(ctx, old.snap) <= 1, no_open_txn(ctx))
             if outcome[0] == "raise":
                 return z3.And(once, c1.equal(c0))
             return z3.And(once, f_op(ctx, c0, c1, args, outcome[1]))
@@ -175,7 +192,7 @@ def install(E):
                                    ensures=[("[C12] opening a store creates the table if missing and never touches existing rows", ro_post)])
     for n, c in C.items():
         E.contracts[c.qual] = c          # callers (import_toml, the client session) enter by these contracts
-    E._tofu_store = dict(contracts=C, committed=committed, commits=commits, mk_self=mk_self, fp_of=fp_of)
+    E._tofu_store = dict(contracts=C, committed=committed, commits=commits, mk_self=mk_self, fp_of=fp_of, no_open_txn=no_open_txn)
     return E._tofu_store
 
 
